@@ -305,7 +305,7 @@ func (ld *Layerdefs) RemoveLayer(name string, removeFiles bool) error {
 		return err
 	}
 
-	if removeFiles || layer.State == Layerstate_complete {
+	if removeFiles || (layer.State == Layerstate_complete && ld.holdsOnlyOwnFiles(layer)) {
 		err = fs.Remove(layer.LayerPath)
 		if err != nil {
 			return err
@@ -324,6 +324,25 @@ func (ld *Layerdefs) RemoveLayer(name string, removeFiles bool) error {
 	delete(ld.layermap, name)
 	ld.normalizeOrder()
 	return nil
+}
+
+
+// holdsOnlyOwnFiles tells whether the layer directory contains nothing beyond what
+// AddLayer itself creates: directories, the layerconfig file and, in a base layer, the
+// root user's .bashrc.  Only then may a layer be deleted outright without -files.
+func (ld *Layerdefs) holdsOnlyOwnFiles(layer *Layerinfo) bool {
+	ownFiles := map[string]bool{
+		path.Join(layer.LayerPath, defaults.LayerconfigFile): true,
+		path.Join(ld.buildPath(layer), "root", ".bashrc"): true,
+	}
+	pristine := true
+	filepath.Walk(layer.LayerPath, func(name string, info os.FileInfo, err error) error {
+		if err != nil || (!info.IsDir() && !ownFiles[name]) {
+			pristine = false
+		}
+		return nil
+	})
+	return pristine
 }
 
 
